@@ -77,18 +77,23 @@ static char *_make_string(xmpp_ctx_t *ctx, const char *s, unsigned len)
     return result;
 }
 
-/* create a new, null-terminated string quoting another string */
+/* create a new, null-terminated string quoting another string;
+   '"' and '\\' are sent as quoted-pairs (RFC 2831 7.2) */
 static char *_make_quoted(xmpp_ctx_t *ctx, const char *s)
 {
-    char *result;
-    size_t len = strlen(s);
+    char *result, *r;
 
-    result = strophe_alloc(ctx, len + 3);
+    result = strophe_alloc(ctx, 2 * strlen(s) + 3);
     if (result != NULL) {
-        result[0] = '"';
-        memcpy(result + 1, s, len);
-        result[len + 1] = '"';
-        result[len + 2] = '\0';
+        r = result;
+        *r++ = '"';
+        for (; *s != '\0'; s++) {
+            if (*s == '"' || *s == '\\')
+                *r++ = '\\';
+            *r++ = *s;
+        }
+        *r++ = '"';
+        *r = '\0';
     }
     return result;
 }
@@ -134,9 +139,22 @@ static hash_t *_parse_digest_challenge(xmpp_ctx_t *ctx, const char *msg)
             /* if we see quotes, grab the string in between */
             if ((*s == '\'') || (*s == '"')) {
                 t++;
-                while ((*t != *s) && (*t != '\0'))
+                /* a backslash quotes the next character (RFC 2831 7.2) */
+                while ((*t != *s) && (*t != '\0')) {
+                    if ((*t == '\\') && (t[1] != '\0'))
+                        t++;
                     t++;
+                }
                 value = _make_string(ctx, (char *)s + 1, (t - s - 1));
+                if (value != NULL) {
+                    char *r = value, *w = value;
+                    while (*r != '\0') {
+                        if ((*r == '\\') && (r[1] != '\0'))
+                            r++;
+                        *w++ = *r++;
+                    }
+                    *w = '\0';
+                }
                 if (*t == *s) {
                     s = t + 1;
                 } else {
